@@ -26,13 +26,17 @@ static int run_script_for_rstack(struct uftrace_data *handle, struct uftrace_tas
 	struct uftrace_session_link *sessions = &handle->sessions;
 	struct uftrace_symbol *sym = NULL;
 	char *symname = NULL;
+	bool skip_libcall = false;
 
 	sym = task_find_sym(sessions, task, rstack);
 	symname = symbol_getname(sym, rstack->addr);
 
-	/* skip it if --no-libcall is given */
+	/*
+	 * with --no-libcall a library call still goes through the filters, as in
+	 * report, graph and dump: it is only not passed to the script
+	 */
 	if (!opts->libcall && sym && sym->type == ST_PLT_FUNC)
-		goto out;
+		skip_libcall = true;
 
 	task->timestamp_last = task->timestamp;
 	task->timestamp = rstack->time;
@@ -49,7 +53,7 @@ static int run_script_for_rstack(struct uftrace_data *handle, struct uftrace_tas
 		int ret;
 
 		ret = fstack_entry(task, rstack, &tr);
-		if (ret < 0)
+		if (ret < 0 || skip_libcall)
 			goto out;
 
 		/* display depth is set in fstack_entry() */
@@ -85,7 +89,7 @@ static int run_script_for_rstack(struct uftrace_data *handle, struct uftrace_tas
 		/* function exit */
 		fstack = fstack_get(task, task->stack_count);
 
-		if (fstack_enabled && fstack && !(fstack->flags & FSTACK_FL_NORECORD)) {
+		if (!skip_libcall && fstack_enabled && fstack && !(fstack->flags & FSTACK_FL_NORECORD)) {
 			int depth = fstack_update(UFTRACE_EXIT, task, fstack);
 
 			if (!script_match_filter(symname)) {
